@@ -788,7 +788,14 @@ def mpc_acosh(z, prec, rnd=round_fast):
     # acosh(z) = -I * acos(z)   for Im(acos(z)) <= 0
     #            +I * acos(z)   otherwise
     a, b = mpc_acos(z, prec, rnd)
-    if b[0] or b == fzero:
+    # The sign of Im(acos(z)) is the opposite of the sign of Im(z); use the
+    # argument when it decides (the computed imaginary part can underflow
+    # to zero for tiny Im(z)), and the computed value on the real axis
+    if z[1] == fzero:
+        negative = b[0] or b == fzero
+    else:
+        negative = not z[1][0]
+    if negative:
         return mpf_neg(b), a
     else:
         return b, mpf_neg(a)
